@@ -19,6 +19,7 @@ import ast
 import copy
 
 MAX_TABLE = 16
+BUILTIN_CALLABLES = {"int", "float", "str", "bool", "len", "abs", "min", "max", "round", "sorted", "list", "tuple", "sum"}
 
 
 class GiveUp(Exception):
@@ -82,7 +83,7 @@ class Specialiser:
                 out[kk] = self.lit(v)
             return out
         if isinstance(e, ast.Name):
-            if self._is_function_name(e.id):
+            if self._is_function_name(e.id) or e.id in BUILTIN_CALLABLES:
                 return FRef(e.id)
             raise GiveUp()
         if isinstance(e, (ast.Attribute, ast.Lambda)):
@@ -294,6 +295,19 @@ class Specialiser:
                     return ast.copy_location(ast.Call(func=ast.Name(id=fv.name, ctx=ast.Load()), args=n.args, keywords=n.keywords), n)
                 if isinstance(fv, Opaque):
                     sp.changed = True
+                    lam = fv.node
+                    if isinstance(lam, ast.Lambda) and not n.keywords and not lam.args.defaults and not lam.args.vararg and not lam.args.kwarg \
+                            and len(lam.args.args) == len(n.args) and not any(isinstance(a, ast.Starred) for a in n.args):
+                        # beta reduction: (lambda x: body)(a)  ->  body[x := a]
+                        m_ = {p.arg: a for p, a in zip(lam.args.args, n.args)}
+
+                        class B(ast.NodeTransformer):
+                            def visit_Name(self, x):
+                                return copy.deepcopy(m_[x.id]) if isinstance(x.ctx, ast.Load) and x.id in m_ else x
+
+                            def visit_Lambda(self, x):
+                                return x
+                        return ast.copy_location(B().visit(copy.deepcopy(lam.body)), n)
                     return ast.copy_location(ast.Call(func=copy.deepcopy(fv.node), args=n.args, keywords=n.keywords), n)
                 return n
         return T().visit(copy.deepcopy(e))
